@@ -1,27 +1,35 @@
 from common import COMMON_TB
 
 CFG = {
-    "technique": "Lean 4 theorems about an executable model of reliablyPublishTransaction / publishTransaction / resendUnminedTxs over "
-                 "an abstract unconfirmed-transaction store + differential run of a real wallet.Wallet with scripted backend answers",
-    "level_text": "All clauses of C20 are Lean theorems for every store, transaction and backend answer class: a failing answer "
-                  "(rejection or NotifyReceived failure) removes the transaction and exactly its unconfirmed descendants and returns an "
-                  "error; for a new childless transaction the store - hence every balance and the spendable set - is unchanged; "
-                  "'already in mempool' keeps it recorded exactly once; after every RescanFinished all unconfirmed transactions are "
-                  "offered, parents first. Tied to wallet/wallet.go, wtxmgr/unconfirmed.go and chain/errors.go by a differential run "
-                  "with raw backend error texts passed through the real MapRPCErr code.",
-    "level_note": "Trusted: Lean kernel; the hand model Publish.lean (abstract store of unconfirmed records with spend edges; the literal "
-                  "depth-first removeConflict is proved equal to the descendant closure the theorems use; tied to the Go code by "
-                  "correspondence on explored inputs only); Go scheduler (the re-broadcast goroutine is "
-                  "observed after it finished).",
+    "technique": "Lean 4 theorems about an executable model of reliablyPublishTransaction / publishTransaction / resendUnminedTxs "
+                 "(incl. the ordered effect list record -> subscribe -> broadcast -> roll-back, and two overlapping re-broadcasts) over an "
+                 "abstract unconfirmed-transaction store + differential run of a real wallet.Wallet with scripted backend answers, "
+                 "judged against the fake backend's own SendRawTransaction record",
+    "level_text": "Lean theorems for every store, transaction and answer class: a failing answer (rejection, NotifyReceived failure) "
+                  "forgets the transaction and exactly its unconfirmed descendants and returns an error; a new childless one leaves "
+                  "the store (balances, spendable set) unchanged; 'already in mempool' keeps it once; publish is the run of its "
+                  "effect list (C20_publish_effects): broadcast only after record + subscription, never after a failed one "
+                  "(C20_subscribe_before_broadcast), a broadcast tx is not forgotten (C20_published_never_forgotten); every "
+                  "resync, also two overlapping ones, offers every unconfirmed tx, parents first (C20_resend, "
+                  "C20_resend_every_resync).",
+    "level_note": "Tied to wallet/wallet.go, wtxmgr/unconfirmed.go, chain/errors.go by a differential run: raw backend texts through the "
+                  "real MapRPCErr, replies carry sent=<SendRawTransaction calls>, op `resync twice=1` makes two re-broadcasts "
+                  "overlap. Oracles from the fake backend's own record: publish.accepted-by-backend-but-forgotten, "
+                  "resendUnminedTxs.not-offered-after-every-resync / offered-twice. Trusted: Lean kernel; hand model Publish.lean "
+                  "(depth-first removeConflict proved equal to the descendant closure; tied on explored inputs only); Go scheduler "
+                  "(goroutines observed after they finished).",
     "lean_props": ["BtcwVerif.Props.C20"],
     "engines": ["walletchain-tx"],
     "trusted_base": COMMON_TB + [
         "hand-written model BtcwVerif/Model/Publish.lean of wallet.reliablyPublishTransaction/publishTransaction/resendUnminedTxs, wtxmgr.removeConflict/insertMemPoolTx and the tables of chain/errors.go (tied by differential run)",
         "transaction ids identify transactions (hash collisions excluded); dependency graph acyclic (hypothesis `Acyclic`, true of hash-linked transactions)",
         "walletdb.Update atomicity (C11) for each of the two database transactions of a publish",
+        "backend side of 'accepted': the fake backend's own record of SendRawTransaction calls and answers (harness/engines/walletchaintx/backend.go), independent of what the wallet returned",
+        "overlapping re-broadcasts (op `resync twice=1`): the fake holds every SendRawTransaction call until the second RescanFinished was delivered; the model (Publish.resendTwice) lets both goroutines read the same untouched store, removals being idempotent - validated by the differential `state` after the op",
     ],
     "assumptions": [
         "DependencySort is modelled layer by layer; the order inside a layer (Go map order) is irrelevant to the property",
+        "a NotifyReceived failure is scripted only while reliablyPublishTransaction is on the call stack; a failed subscription and a broadcast never occur in one call (theorem), so 'forgotten' is demanded only when the backend did not accept the transaction",
         "where several keys of one Go error map match a backend text the choice is Go-map-order dependent; the generator only emits texts whose matches agree on the class",
     ],
 }
